@@ -352,6 +352,7 @@ func checkC17(c *Ctx) {
 	bpCore(c)
 	// ... and the reader's call site hands every group of a bit-packed run to that unpacker
 	laRLEDecoder(c, map[string]bool{"unpack-all": true})
+	laNarrowIndex(c)
 	c.R.Extra["checker_cmd"] = "/verif/bin/verif check C17"
 	c.R.Extra["trusted_base"] = []string{"go/parser, go/types and go/constant (parsing, typing, constant evaluation of masks and shift counts)",
 		"the abstract interpreter over go/ssa in /verif/checker/bpssa.go (about 550 lines: bit-level transfer functions for & | ^ &^ << >> + conversions, constant arithmetic for data-independent values, slices/arrays/append, calls, phis)",
